@@ -58,3 +58,128 @@ LEMMAS = [L.SmtLemma("romberg-constants-sum-to-one-and-cancel-error-terms", _ord
                      note="evaluated in exact rational arithmetic by the lemma builder (m <= 5); the SMT query only records the outcome")]
 ASSUMPTIONS = ["machine floats treated as reals (A-REAL)", "fixed extrapolation depth m <= 3 for the code contracts (loop-free unrolling)",
                "slices, containers, binary-tree completion, balanced grids: layer B only (exhaustive over dyadic trees of depth <= 4)"]
+
+
+# --------------------------------------------------------------------------- any extrapolation depth m and any j: loop invariant over the ghost product
+from pyvc.book import Loop  # noqa: E402
+from pyvc import prelude as P  # noqa: E402
+
+I_, R_ = z3.IntSort(), z3.RealSort()
+
+
+def ratio_factors(j, e):
+    """array i -> P_j^e / (P_j^e - P_i^e) with P_i = 2^i (1 at i == j): the factors of the Richardson constant, free of the interval [a, b]"""
+    i = z3.Int("ri")
+    pj, pi = z3.ToReal(P.POW2(j)), z3.ToReal(P.POW2(i))
+    pw = (lambda x: x) if e == 1 else (lambda x: x * x)
+    return z3.Lambda([i], z3.If(i == j, z3.RealVal(1), pw(pj) / (pw(pj) - pw(pi))))
+
+
+def pow2_monotone(n):
+    """2^i < 2^k for 0 <= i < k <= n  (lemma pow2-strictly-monotone)"""
+    i, k = z3.Ints("mi mk")
+    return z3.ForAll([i, k], z3.Implies(z3.And(i >= 0, i < k, k <= n), z3.And(P.POW2(i) >= 1, P.POW2(i) < P.POW2(k))), patterns=[z3.MultiPattern(P.POW2(i), P.POW2(k))])
+
+
+def _pow2_lemma():
+    n, i = z3.Ints("n i")
+    k = z3.Int("pk")
+    ax = [P.POW2(0) == 1, z3.ForAll([k], z3.Implies(k >= 0, P.POW2(k + 1) == 2 * P.POW2(k)), patterns=[P.POW2(k + 1)])]
+    claim = lambda m: z3.And(P.POW2(m) >= 1, z3.ForAll([i], z3.Implies(z3.And(i >= 0, i < m), z3.And(P.POW2(i) >= 1, P.POW2(i) < P.POW2(m)))))  # noqa
+    return [(ax, claim(z3.IntVal(0))), (ax + [n >= 0, claim(n)], claim(n + 1))]
+
+
+class RombergCoefficientAny(Contract):
+    """any depth m >= 0 and any 0 <= j <= m: the coefficient is the product of the interval-free ratios 2^{je} / (2^{je} - 2^{ie}), i != j"""
+    file, qualname = FILE, "ExtrapolationCoefficients.get_romberg_coefficient"
+    inline = ("ExtrapolationCoefficients.get_step_width", "get_step_width")
+
+    def __init__(self, exponent):
+        self.exponent = exponent
+        self.label = "ExtrapolationCoefficients.get_romberg_coefficient[any m, any j, exponent=%d]" % exponent
+
+    def inputs(self, S):
+        a, b = S.real("a"), S.real("b")
+        S.assume(a < b)
+        m, j = S.int("m"), S.int("j")
+        S.assume(z3.And(m >= 0, j >= 0, j <= m))
+        for ax in P.prod_axioms():
+            S.assume(ax, "def:Prod")
+        k = z3.Int("pk")
+        S.assume(P.POW2(0) == 1, "def:pow2")
+        S.assume(z3.ForAll([k], z3.Implies(k >= 0, P.POW2(k + 1) == 2 * P.POW2(k)), patterns=[P.POW2(k + 1)]), "def:pow2")
+        return {"self": Obj("RombergDefaultCoefficients", dict(a=a, b=b)), "m": m, "j": j, "exponent": self.exponent}
+
+    def inv(self, S, env, g):
+        old = S.ex.old
+        i, k2 = z3.Ints("qi qk")
+        mono = z3.ForAll([i, k2], z3.Implies(z3.And(i >= 0, k2 >= 0, i != k2, i <= old["m"], k2 <= old["m"]), z3.And(P.POW2(i) >= 1, P.POW2(i) != P.POW2(k2))),
+                         patterns=[z3.MultiPattern(P.POW2(i), P.POW2(k2))])
+        L_ = old["self"].fields["b"] - old["self"].fields["a"]
+        W = lambda t: L_ / z3.ToReal(P.POW2(t))  # noqa
+        pw = (lambda x: x) if self.exponent == 1 else (lambda x: x * x)
+        pj = z3.ToReal(P.POW2(old["j"]))
+
+        def fact(t):
+            pt = z3.ToReal(P.POW2(t))
+            return z3.Implies(z3.And(t != old["j"], t >= 0, t <= old["m"]),
+                              z3.And(pw(W(t)) - pw(W(old["j"])) != 0, pw(W(t)) / (pw(W(t)) - pw(W(old["j"]))) == pw(pj) / (pw(pj) - pw(pt))))
+        kcur = g["k"] if not isinstance(g["k"], int) else z3.IntVal(g["k"])
+        return [Cl("powers-of-two-distinct-and-positive", mono, by=[("pow2-strictly-monotone", self.mono_stmt(old["m"]))]),
+                # the interval-free form of the ratio used by THIS iteration (instance of lemma romberg-ratio at (2^k, 2^j)): stated as an invariant so that it
+                # is available to the division-safety obligation inside the body
+                Cl("ratio-of-the-current-step-is-interval-free", fact(kcur), uses=["loop0/inv#powers-of-two", "loop0/entry#powers-of-two", "loop0/preserve#powers-of-two"],
+                   by=[("romberg-ratio", ratio_stmt(L_, z3.ToReal(P.POW2(kcur)), pj, self.exponent))]),
+                Cl("coefficient-so-far", Vv.to_z3(env["coefficient"], True) == P.PRODR(ratio_factors(old["j"], self.exponent), 0, g["k"]),
+                   uses=["def:Prod", "loop0/inv#coefficient-so-far", "loop0/inv#ratio-of-the-current-step", "loop0/inv#interval-untouched"]),
+                ("interval-untouched", z3.And(env["self"].fields["a"] == old["self"].fields["a"], env["self"].fields["b"] == old["self"].fields["b"],
+                                              Vv.to_z3(env["h_j"], True) == (old["self"].fields["b"] - old["self"].fields["a"]) / z3.ToReal(P.POW2(old["j"]))))]
+
+    @staticmethod
+    def mono_stmt(m):
+        i, k = z3.Ints("si sk")
+        return z3.Implies(m >= 0, z3.ForAll([i, k], z3.Implies(z3.And(i >= 0, i < k, k <= m), z3.And(P.POW2(i) >= 1, P.POW2(k) >= 1, P.POW2(i) < P.POW2(k))),
+                                            patterns=[z3.MultiPattern(P.POW2(i), P.POW2(k))]))
+
+    @property
+    def loops(self):
+        return {0: Loop(inv=lambda S, env, g: self.inv(S, env, g))}
+
+    def post(self, S, old, env, result):
+        return [Cl("coefficient-is-the-product-of-interval-free-ratios-of-powers-of-two",
+                   Vv.to_z3(result, True) == P.PRODR(ratio_factors(old["j"], self.exponent), 0, old["m"] + 1), prop=True)]
+
+
+def ratio_stmt(L_, pi, pj, e):
+    """(L/pi)^e / ((L/pi)^e - (L/pj)^e) == pj^e / (pj^e - pi^e)  for L > 0, pi, pj >= 1, pi != pj   (quantifier-free real arithmetic)"""
+    pw = (lambda x: x) if e == 1 else (lambda x: x * x)
+    hi, hj = L_ / pi, L_ / pj
+    return z3.Implies(z3.And(L_ > 0, pi >= 1, pj >= 1, pi != pj),
+                      z3.And(pw(hi) - pw(hj) != 0, pw(hi) / (pw(hi) - pw(hj)) == pw(pj) / (pw(pj) - pw(pi))))
+
+
+def ratio_stmt_all(L_, m, e):
+    x, y = z3.Reals("rx ry")
+    return z3.ForAll([x, y], ratio_stmt(L_, x, y, e))
+
+
+def _ratio_lemma():
+    L_, x, y = z3.Reals("L rx ry")
+    return [([], ratio_stmt(L_, x, y, 1)), ([], ratio_stmt(L_, x, y, 2))]
+
+
+def _pow2_mono_lemma():
+    """for every m >= 0: 2^i < 2^k whenever 0 <= i < k <= m, and all of them >= 1   (induction on m)"""
+    m = z3.Int("m")
+    k = z3.Int("pk")
+    ax = [P.POW2(0) == 1, z3.ForAll([k], z3.Implies(k >= 0, P.POW2(k + 1) == 2 * P.POW2(k)), patterns=[P.POW2(k + 1)])]
+    i, kk = z3.Ints("si sk")
+    body = lambda mm: z3.ForAll([i, kk], z3.Implies(z3.And(i >= 0, i < kk, kk <= mm), z3.And(P.POW2(i) >= 1, P.POW2(kk) >= 1, P.POW2(i) < P.POW2(kk))))  # noqa
+    pos = lambda mm: z3.ForAll([i], z3.Implies(z3.And(i >= 0, i <= mm), P.POW2(i) >= 1))  # noqa
+    return [(ax, z3.And(body(z3.IntVal(0)), pos(z3.IntVal(0)))), (ax + [m >= 0, body(m), pos(m)], z3.And(body(m + 1), pos(m + 1)))]
+
+
+CONTRACTS += [RombergCoefficientAny(1), RombergCoefficientAny(2)]
+LEMMAS += [L.SmtLemma("romberg-ratio", _ratio_lemma, note="the ratio of step widths does not depend on the interval length (real arithmetic, exponent 1 and 2)"),
+           L.SmtLemma("pow2-strictly-monotone", _pow2_mono_lemma, note="powers of two are positive and strictly increasing (induction)")]
+ASSUMPTIONS += ["any-depth contract: ghost Prod and pow2 with their recursion axioms; exponent fixed to 1 or 2 (the two callers)"]
